@@ -2129,6 +2129,23 @@ func (d *Document) parseBodySubElement(decoder *xml.Decoder, startElement xml.St
 	case "sectPr":
 		// 解析节属性
 		return d.parseSectionProperties(decoder, startElement)
+	case "bookmarkStart":
+		// 正文级书签开始
+		bookmark := &BookmarkStart{
+			ID:   getAttributeValue(startElement.Attr, "id"),
+			Name: getAttributeValue(startElement.Attr, "name"),
+		}
+		if err := d.skipElement(decoder, startElement.Name.Local); err != nil {
+			return nil, err
+		}
+		return bookmark, nil
+	case "bookmarkEnd":
+		// 正文级书签结束
+		bookmark := &BookmarkEnd{ID: getAttributeValue(startElement.Attr, "id")}
+		if err := d.skipElement(decoder, startElement.Name.Local); err != nil {
+			return nil, err
+		}
+		return bookmark, nil
 	default:
 		// 跳过未知元素
 		Debugf("跳过未知元素: %s", startElement.Name.Local)
